@@ -114,6 +114,9 @@ def expr(node, opts=None):
         return {'e': 'cast', 'a': expr(node.arg, opts)}
     if k == 'Parameter':
         raise Unsupported('bare parameter')
+    if k == 'Latest':
+        # the LATEST marker is resolved by the planner; where it survives into a query it is a value nothing can evaluate
+        return {'e': 'latest'}
     raise Unsupported('expression ' + k)
 
 
@@ -258,6 +261,8 @@ def _inside_integration(q):
             if o.get('e') == 'col' and 'q3' in o:
                 o['t'] = '?unstripped-qualifier:' + o['q3']
                 q['unstripped'] = 1
+            if o.get('e') == 'latest':
+                q['unstripped'] = 1          # LATEST shipped to an integration: it cannot evaluate it
             if o.get('f') == 'table' and o.get('db'):
                 o['name'] = '?unstripped-qualifier:%s.%s' % (o['db'], o['name'])
                 q['unstripped'] = 1
